@@ -1,4 +1,5 @@
 import NixModel.Lemmas.C16Schema
+import NixModel.Lemmas.C16Rec
 import NixModel.Pure.FrameShape
 import NixModel.Generated.FrameShape
 /-!
@@ -469,6 +470,84 @@ theorem C16_columns_units (f0 : Frame) (hist : List Op) (hc : Created f0) :
   columns_units (wf_run (created_wf hc) hist)
 
 -- ---------------------------------------------------------------------------------------
+-- rows and tables handed over as NumPy structured arrays (`Pure/FrameRec.lean`)
+
+/-- `f0` was returned by `create_data_frame` in one of its variants, the data given as a list of rows or as a
+    structured array -/
+inductive CreatedR : Frame → Prop where
+  | lists {f} : Created f → CreatedR f
+  | dictRec {cols r f} : createDictRec cols r = .ok f → CreatedR f
+  | namesTypesRec {names types r f} : createNamesTypesRec names types r = .ok f → CreatedR f
+  | namesRec {names r f} : createNamesRec names r = .ok f → CreatedR f
+  | structRec {r f} : createStructRec r = .ok f → CreatedR f
+
+theorem createdR_created {f : Frame} (h : CreatedR f) : Created f := by
+  cases h with
+  | lists h => exact h
+  | dictRec h => exact Created.dict (createWithRec_ok h)
+  | namesTypesRec h => exact Created.namesTypes (createNamesTypesRec_ok h)
+  | namesRec h => exact Created.namesTypes (createNamesRec_ok h).2
+  | structRec h => exact Created.struct h
+
+/-- **rows given as a structured array are taken by position**: `append_rows` and `write_rows` (array of records,
+    list of records, one record) store exactly what the same call with the records taken apart into tuples stores —
+    so two structured arrays with the same cells in `dtype.names` order are stored alike whatever their field names
+    (matching the column names, some or all renamed, the same names at other positions), field offsets and padding -/
+theorem C16_record_rows_positional (f : Frame) (r r' : RecArray) (idx : List Int) (record : Row)
+    (h : r.rows = r'.rows) :
+    appendRowsRec f r = step f (.appendRows r.rows) ∧ writeRowsRec f r idx = step f (.writeRows r.rows idx) ∧
+    writeRowVoid f record idx = step f (.writeRowFlat record idx) ∧
+    appendRowsRec f r = appendRowsRec f r' ∧ writeRowsRec f r idx = writeRowsRec f r' idx := by
+  refine ⟨rfl, rfl, rfl, ?_, ?_⟩
+  · simp [appendRowsRec, RecArray.tuples, h]
+  · simp [writeRowsRec, RecArray.tuples, h]
+
+/-- **creation from a structured array is positional, too**: with `col_dict` or `col_names + col_dtypes` an accepted
+    creation is the creation from the records taken apart into tuples (field names and layout play no role) and
+    another number of fields than columns is refused; `col_names` alone takes the field types as column types; the
+    array alone gives the columns its fields **in `dtype.names` order** (proper names kept as they are) whatever the
+    byte offsets are, and `read_rows(k)` returns record `k` -/
+theorem C16_record_creation_positional :
+    (∀ cols r f, createDictRec cols r = .ok f → createDict cols (some r.rows) = .ok f) ∧
+    (∀ names types r f, createNamesTypesRec names types r = .ok f →
+      createNamesTypes names types (some r.rows) = .ok f) ∧
+    (∀ names r f, createNamesRec names r = .ok f →
+      r.rows ≠ [] ∧ createNamesTypes names r.types (some r.rows) = .ok f) ∧
+    (∀ r f, createStructRec r = .ok f →
+      mkDtype r.cols = .ok f.cols ∧ f.types = r.types ∧ ((∀ c ∈ r.cols, c.1 ≠ "") → f.cols = r.cols) ∧
+      f.rows.length = r.rows.length ∧
+      ∀ k (hk : k < r.rows.length), ∃ w, convRow f.types r.rows[k] = .ok w ∧ readRow f (k : Int) = .ok w) ∧
+    (∀ cols c r, r.rows ≠ [] → mkDtype cols = .ok c → r.fields.length ≠ c.length →
+      createDictRec cols r = .error .typeError) ∧
+    (∀ r r', r.cols = r'.cols → r.rows = r'.rows → createStructRec r = createStructRec r') := by
+  refine ⟨fun _ _ _ h => createWithRec_ok h, fun _ _ _ _ h => createNamesTypesRec_ok h,
+    fun _ _ _ h => createNamesRec_ok h, ?_, fun _ _ _ hr hc hn => createWithRec_count hr hc hn, ?_⟩
+  · intro r f h
+    have h' : createStruct r.cols r.rows = .ok f := h
+    obtain ⟨_, h2⟩ := createStruct_spec h'
+    obtain ⟨g1, _, _, g4, _⟩ := createWith_spec h2
+    obtain ⟨l1, l2⟩ := created_rows_read h2
+    refine ⟨g1, ?_, fun hn => createWith_cols h2 hn, l1, l2⟩
+    rw [g4]; simp [RecArray.cols, RecArray.types, List.map_map, Function.comp_def]
+  · intro r r' h1 h2
+    simp [createStructRec, RecArray.tuples, h1, h2]
+
+/-- **every history theorem holds for histories that spell rows either way**: after any history of operations whose
+    rows are lists of cells or structured arrays, from any creation variant with either kind of data, the reports
+    describe the stored table, an accepted operation is read back (as the operation on the records taken apart by
+    position), a refused one leaves the table unchanged and no operation changes a cell it does not address -/
+theorem C16_record_histories (f0 : Frame) (hist : List OpR) (o : OpR) (hc : CreatedR f0) :
+    Describes (runR f0 hist) ∧
+    (∀ f', stepR (runR f0 hist) o = (f', none) → ReadBack (runR f0 hist) f' o.toOp) ∧
+    (∀ e, (stepR (runR f0 hist) o).2 = some e → (stepR (runR f0 hist) o).1 = runR f0 hist) ∧
+    (∀ r c, ¬ touched (runR f0 hist) o.toOp r c →
+      (stepR (runR f0 hist) o).1.cell r c = (runR f0 hist).cell r c) := by
+  have hc' := createdR_created hc
+  rw [runR_eq, stepR_eq]
+  exact ⟨C16_shape_consistent f0 _ hc', fun f' h => C16_read_what_written f0 _ _ f' hc' h,
+    fun e h => C16_refused_unchanged f0 _ _ e h, fun r c h => C16_frame f0 _ _ r c hc' h⟩
+
+-- ---------------------------------------------------------------------------------------
 -- the shape of the source (regenerated from nixio/data_frame.py and block.py on every run)
 
 /-- **DataFrame objects carry no state**: no method other than `__init__` assigns an object field and no method
@@ -531,5 +610,16 @@ example : (step exFrame (.appendColumn [.flt 1, .flt 2] "x" none)).1.cols = exFr
 example : (createNamesData ["n", "t"] (some [[.int 1, .str "x"]])).map (·.cols) = .ok [("n", .i64), ("t", .text)] ∧
     (createNamesTypes ["a", "a"] [.i8, .i8] none).toOption = none ∧
     (createStruct [("a", .i8)] []).toOption = none := ⟨rfl, rfl, rfl⟩
+
+/-- a structured array whose field names differ from the column names and whose second field lies first in memory:
+    the appended row is the record by position; created alone, its fields become the columns in `dtype.names` order -/
+def exRec : RecArray := ⟨[("a", .i8, 8), ("label", .text, 0)], [[.int 3, .str "z"]]⟩
+example : (appendRowsRec exFrame exRec).1.rows = exFrame.rows ++ [[.int 3, .str "z"]] ∧
+    (writeRowsRec exFrame exRec [-1]).1.rows = [[.int 1, .str "x"], [.int 3, .str "z"]] := by decide
+example : (createStructRec exRec).map (·.cols) = .ok [("a", .i8), ("label", .text)] ∧
+    (createNamesRec ["p", "q"] exRec).map (·.cols) = .ok [("p", .i8), ("q", .text)] ∧
+    createDictRec [("k", .i8)] exRec = .error .typeError := ⟨rfl, rfl, rfl⟩
+example : CreatedR exFrame := CreatedR.lists (Created.dict exFrame_created)
+example : (stepR exFrame (.appendRowsRec ⟨[("a", .i8, 0)], [[.int 3]]⟩)).2 = some .valueError := by decide
 
 end Nix.C16
